@@ -42,7 +42,7 @@ BOUNDS = {
     "q-mut0": "23 context paths x every mutation kind (29) x every position",
     "q-mut1": "23 contexts x one grammatical element of 22 names x every truncation and every dropped end tag",
     "q-pkg": "contexts body, tc x (10 parts x 8 breaks + 15 ZIP shapes x 3 entry points), full battery",
-    "q-extreme": "3 contexts x one element of {p, t, tbl, text} x nesting depth 3000 / 30000 siblings / 30000-byte text and attribute / 3750 attributes on every element",
+    "q-extreme": "contexts tc, r x one element of {p, t, tbl, text} x nesting depth 2000 / 8000 siblings / 8000-byte text and attribute / 1000 attributes on every element",
     "t-place2": "23 contexts x <= 2 generated elements over the whole alphabet, <= 1 oddity, 4 text classes, full battery",
     "t-place3": "23 contexts x exactly 3 generated elements (depth <= 3) over 41 names, <= 1 ungrammatical placement",
     "t-odd2": "23 contexts x exactly 2 generated elements over 41 names, <= 2 oddities, all text classes",
@@ -141,7 +141,7 @@ def pipeline(ctx, replay_case=None):
     bounds = {}
     if q:
         cases = ctx.tlc_gen("XmlIn_MC.tla", gencfg(ctx, "gen_q.cfg", Q_GROUPS), "bfs", timeout=600)
-        execute(ctx, cases, "bfs", pend, shards=12)
+        execute(ctx, cases, "bfs", pend, shards=24)
         for g in Q_GROUPS:
             bounds[g] = BOUNDS[g]
     else:
@@ -156,7 +156,7 @@ def pipeline(ctx, replay_case=None):
     # seeded random larger products: more elements, several oddities, mutation x package deviation
     sim = ctx.tlc_gen("XmlIn_MC.tla", gencfg(ctx, "gen_sim.cfg", ["q-sim" if q else "t-sim"]), "sim", mode="sim",
                       num=12 if q else 300, depth=45, limit=500 if q else 20000, timeout=900)
-    execute(ctx, sim, "sim", pend)
+    execute(ctx, sim, "sim", pend, shards=16)
     bounds["sim"] = ("%d seeded random inputs: <= %d generated elements (depth <= %d), <= 3 oddities, mutation x package deviation x entry point"
                      % (len(sim), 9 if q else 14, 4 if q else 6))
     judge(ctx, pend)
